@@ -1,6 +1,7 @@
 """C11 -- only spec-conforming inputs create a process; defaults applied, inputs immutable."""
 import collections
 import copy
+import json
 
 import plumpy
 from plumpy.ports import InputPort, PortNamespace
@@ -172,6 +173,8 @@ def rand_inputs(rng, ns):
                     out[name]['@OD'] = True  # marker: hand this nested mapping over as an OrderedDict
                 elif rng.random() < 0.1:
                     out[name]['@UD'] = True  # marker: ... as a collections.UserDict
+                elif rng.random() < 0.1:
+                    out[name]['@FD'] = True  # marker: ... as an AttributesFrozendict (read-only mapping)
             elif r < 0.9:
                 out[name] = {}
             else:
@@ -199,11 +202,13 @@ def _real(value):
     if value == '@B':
         return B()
     if isinstance(value, dict):
-        out = {k: _real(v) for k, v in value.items() if k not in ('@OD', '@UD')}
+        out = {k: _real(v) for k, v in value.items() if k not in ('@OD', '@UD', '@FD')}
         if value.get('@OD'):
             return collections.OrderedDict(out)  # a dict subclass given by the caller
         if value.get('@UD'):
             return collections.UserDict(out)  # a mutable mapping that is not a dict
+        if value.get('@FD'):
+            return plumpy.utils.AttributesFrozendict(out)  # e.g. the parsed sub-inputs of another process, handed on
         return out
     return value
 
@@ -295,7 +300,7 @@ class Reject(Exception):
 
 
 def model_populate(children, given, stats):
-    if isinstance(given, collections.UserDict):
+    if isinstance(given, (collections.UserDict, plumpy.utils.Frozendict)):
         given = dict(given)  # any mapping will do
     if not isinstance(given, dict):
         raise Reject('namespace value is not a dictionary')
@@ -332,7 +337,7 @@ def _leaves_ok(x, vt):
 def model_valid_ns(attrs, children, values, stats, top=False, depth=0):
     if values is None or (isinstance(values, tuple) and not values):
         values = {}  # None and the UNSPECIFIED marker () stand for "nothing given"
-    if isinstance(values, collections.UserDict):
+    if isinstance(values, (collections.UserDict, plumpy.utils.Frozendict)):
         values = dict(values)
     if not isinstance(values, dict):
         raise Reject('not a mapping')
@@ -449,7 +454,11 @@ def run_case(case):
     shape = _shape(spec)
     if proc is None:
         obs['rejected'] = 1
-        if verdict == 'accept':
+        if verdict == 'accept' and '@FD' in json.dumps(inputs_desc):
+            # a read-only mapping given for a namespace may be refused (its defaults cannot be filled in place); if it is
+            # accepted, everything below applies to it as to any other mapping
+            obs['frozen_namespace_values'] = 1
+        elif verdict == 'accept':
             viol.append(V('rejected-valid', 'rejected-valid:%s' % type(exc).__name__, 'construction raised %r but the inputs conform (spec %s, inputs %r)' % (exc, shape, inputs_desc)))
     else:
         obs['accepted'] = 1
@@ -493,6 +502,15 @@ def run_case(case):
         if _snapshot(inputs) != snap:
             viol.append(V('caller-dict-changed', 'caller-dict-changed:%s' % ('accepted' if proc is not None else 'rejected'),
                           'the caller\'s dictionary was modified: now %r, given %r' % (inputs, given_copy)))
+    # raw_inputs is the process's own record of what it was given: a key the caller adds to its dictionary afterwards is not in it
+    if proc is not None and isinstance(inputs, dict):
+        raw_before = plain(proc.raw_inputs) if proc.raw_inputs is not None else None
+        inputs['zz_added_later'] = 1
+        obs['later_caller_changes'] = 1
+        if (plain(proc.raw_inputs) if proc.raw_inputs is not None else None) != raw_before:
+            viol.append(V('raw-inputs-follow-caller', 'raw-inputs-follow-caller', 'a key added to the caller\'s dictionary after the construction shows in raw_inputs: %r' % (
+                plain(proc.raw_inputs),)))
+        del inputs['zz_added_later']
     # metamorphic relations (model independent)
     if proc is not None and verdict == 'accept':
         again, exc2 = _construct(cls, plain(proc.inputs))
